@@ -176,6 +176,9 @@ func bombCases() [][]byte {
 
 // runBomb parses the input in a subprocess under an address-space limit.
 func runBomb(input []byte, limit string) (ok bool, detail string) {
+	// a subprocess may legitimately take seconds on a loaded machine: the stall watchdog is for simulated runs only
+	busy.Store(false)
+	defer busy.Store(true)
 	exe, _ := os.Executable()
 	cmd := exec.Command("prlimit", "--as="+limit, "timeout", "20", exe, "-test.run", "^TestBombChild$")
 	cmd.Env = append(os.Environ(), "VERIF_BOMB="+hex.EncodeToString(input), "VERIF_PROP=")
